@@ -1055,10 +1055,15 @@ impl SvgNode<'_, '_> {
                 Units::UserSpaceOnUse,
                 state,
             );
-            transform = Transform::default()
+            let with_origin = Transform::default()
                 .pre_translate(dx, dy)
                 .pre_concat(transform)
                 .pre_translate(-dx, -dy);
+            // An origin like `3e38 0` makes the products overflow.
+            // Such an origin cannot be applied.
+            if with_origin.is_finite() {
+                transform = with_origin;
+            }
         }
 
         transform
